@@ -51,6 +51,7 @@ static J gen_threads(Chooser &ch)
             }
           s["q"] = q;
           s["props"] = g::gen_props(ch, 6);
+          s["via_c"] = ch.chance(30); // through the C interface (its own marshalling of the property list) instead of World::properties
           // the public distance query of line features is part of the concurrent API surface
           std::vector<std::string> lines;
           for (auto &m : w.feats) if (m.line()) lines.push_back(m.name);
@@ -158,7 +159,7 @@ int main(int argc, char **argv)
 {
   return run_main("C14", argc, argv,
   {
-    {"threads_tsan", "deterministic worlds (all feature/model types incl. the re-entrant tian water content) x 2..32 threads, each with its own stream of 5..30 batched 2D/3D requests and distance_to_plane calls, 60% of the points drawn from a shared pool inside the features; executed twice per thread behind a barrier under ThreadSanitizer. Oracle: no TSan report and every answer bit-equal to the single-thread answer. Non-trivial: >=2 threads", 25, gen_threads, check_threads},
+    {"threads_tsan", "deterministic worlds (all feature/model types incl. the re-entrant tian water content) x 2..32 threads, each with its own stream of 5..30 batched 2D/3D requests (30% through the C interface properties_2d/3d) and distance_to_plane calls, 60% of the points drawn from a shared pool inside the features; executed twice per thread behind a barrier under ThreadSanitizer. Oracle: no TSan report and every answer bit-equal to the single-thread answer. Non-trivial: >=2 threads", 25, gen_threads, check_threads},
     {"grid_j", "cartesian 2D/3D grids with 1..40 x 1..7 x 1..25 cells (node counts below, equal to, not divisible by and far above the thread count) x -j in {2,3,5,7,16,40} x --filtered/--by-tag, run with the ThreadSanitizer build of gwb-grid: all output files byte-identical to the -j 1 run, no TSan report. Non-trivial: node count not divisible by the thread count", 25, gen_grid, check_grid},
   });
 }
